@@ -49,5 +49,9 @@ Next == /\ c.kind = "none"
            \/ \E l \in {"ksk_c", "atk_c", "tsk_c", "tgk_c"}, b \in Bs, s \in Sizes, r \in 1..3, dn \in 1..3, ds \in 1..2, xa \in Seeds, xe \in Seeds, pid \in 0..3 :
                 /\ s * b <= 24 /\ s > ds /\ dn * ds <= s /\ (l # "atk_c" => pid = 0)
                 /\ c' = With(Base("c19", l, b, s, r), [dnum |-> dn, dsize |-> ds, rin |-> 1, xa |-> xa, xe |-> xe, koff |-> 0, pid |-> pid])
+           \* compressed blind-rotation keys (one compressed GGSW per LWE coefficient, one branch seed each)
+           \/ \E b \in Bs, s \in Sizes, r \in Ranks, dn \in 1..3, nl \in {1, 2, 4}, xa \in Seeds, xe \in Seeds :
+                /\ s * b <= 24 /\ s > 1 /\ dn <= s
+                /\ c' = With(Base("c19", "brk_c", b, s, r), [dnum |-> dn, dsize |-> 1, rin |-> 1, nlwe |-> nl, xa |-> xa, xe |-> xe, koff |-> 0])
 Emit == c.kind # "none" => PrintT(<<"DESC", ToJson(c)>>)
 =============================================================================
